@@ -313,7 +313,7 @@ class World(object):
                     os.makedirs(sub, exist_ok=True)
                 write_sed_file(os.path.join(sub, nm + '_sed' + ext), nm, w, aps_file, v, e, dtype=self.dtype,
                                unit=spec.get('flux_unit', 'mJy'), err_unit=spec.get('err_unit'),
-                               distance_key=not (spec.get('sed_no_distance_key') and spec.get('flux_unit') != 'erg/s'),
+                               distance_key=not spec.get('sed_no_distance_key'),
                                columns=spec.get('sed_columns', 'plain'))
             self.write_params(d, self.perm if perm is None else perm, gz=gz)
         else:
@@ -526,7 +526,9 @@ def gen_source(rng, nf, name, flags=(0, 1, 1, 1, 2, 3, 4, 9), min_fit=0):
     r = rng.random()
     if r < 0.3:
         src['arrays'] = 'big' if r < 0.12 else ('strided' if r < 0.24 else 'tuple')
-    elif r < 0.4 and 4 not in valid:
+    elif r < 0.37:
+        src['arrays'] = 'floatflags'          # the flags column of a catalogue read as floating point (1.0, 4.0, ...)
+    elif r < 0.57 and 4 not in valid:
         # an integer-quantised catalogue: whole numbers held in integer arrays
         src['arrays'] = 'int'
         src['flux'] = [float(max(1, round(f))) for f in flux]
@@ -571,6 +573,10 @@ def make_source(s):
         o.valid = np.array(s['valid'], dtype=int)
         o.flux = np.array(s['flux'], dtype=int)
         o.error = np.array(s['error'], dtype=int)
+    elif kind == 'floatflags':
+        o.valid = np.array(s['valid'], dtype=np.float64 if len(s['valid']) % 2 else np.float32)
+        o.flux = np.array(s['flux'], dtype=float)
+        o.error = np.array(s['error'], dtype=float)
     elif kind == 'big':
         o.valid = np.array(s['valid'], dtype='>i4')
         o.flux = np.array(s['flux'], dtype='>f8')
